@@ -62,6 +62,14 @@ def obligations(tier):
                     for notif in ((False, True) if ncalls == 2 else (False,)):
                         obs.append({'h': 'batch', 'ncalls': ncalls, 'els': list(combo), 'notif': notif, 'strict': strict,
                                     'kind': kind, '_weight': 4 ** n})
+                        if n >= ncalls and not notif and n <= 3:
+                            # falsy ids among the calls: ids 0..n-1, and string ids '' / 'a'
+                            if set(combo) <= {'ok_i', 'err_i'}:
+                                obs.append({'h': 'batch', 'ncalls': ncalls, 'els': list(combo), 'notif': notif, 'strict': strict,
+                                            'kind': kind, 'idk': 'zero', '_weight': 4 ** n})
+                            if set(combo) <= {'ok_s', 'ok_i'} and combo.count('ok_i') <= 1:
+                                obs.append({'h': 'batch', 'ncalls': ncalls, 'els': list(combo), 'notif': notif, 'strict': strict,
+                                            'kind': kind, 'idk': 'str', '_weight': 4 ** n})
                         if ncalls >= 2 and n == ncalls and set(combo) <= {'ok_i', 'err_i'} and combo.count('err_i') <= 1:
                             # the same batch request built incrementally (append / extend onto a non-empty batch)
                             for build in ('append', 'extend'):
@@ -235,7 +243,11 @@ def h_batch(ob):
     def run(env):
         import pjrpc
         ncalls = ob['ncalls']
-        reqs = [pjrpc.Request('m', [i], id=i) for i in range(1, ncalls + 1)]
+        # call ids: 1..n (default), 0..n-1 ('zero': a falsy id among them) or the strings '', 'a', 'b', .. ('str')
+        idk = ob.get('idk')
+        call_ids = {None: list(range(1, ncalls + 1)), 'zero': list(range(0, ncalls)), 'str': ['', 'a', 'b', 'c'][:ncalls]}[idk]
+        ctag = 's' if idk == 'str' else 'i'
+        reqs = [pjrpc.Request('m', [i], id=cid) for i, cid in enumerate(call_ids, 1)]
         if ob['notif']:
             reqs.insert(1, pjrpc.Request('n', [0]))
         if ob.get('build') == 'append':
@@ -247,7 +259,6 @@ def h_batch(ob):
             br.extend(reqs[1:])
         else:
             br = pjrpc.BatchRequest(*reqs)
-        call_ids = list(range(1, ncalls + 1))
         body, tags = [], []
         for j, k in enumerate(ob['els']):
             if k == 'ok_i':
@@ -269,9 +280,9 @@ def h_batch(ob):
             raise Violation('unexpected-' + st, body)
         nonnull = [(t, r['id']) for t, r in zip(tags, body) if t != 'n']
         dup = any(t1 == t2 and v1 == v2 for (i, (t1, v1)) in enumerate(nonnull) for (t2, v2) in nonnull[i + 1:])
-        int_ids = [v for t, v in nonnull if t == 'i']
+        int_ids = [v for t, v in nonnull if t == ctag]
         covers = all(any(v == c for v in int_ids) for c in call_ids)
-        surplus = any(t == 's' for t, _ in nonnull) or any(all(v != c for c in call_ids) for v in int_ids)
+        surplus = any(t != ctag for t, _ in nonnull) or any(all(v != c for c in call_ids) for v in int_ids)
         has_null = any(t == 'n' for t in tags)
         if not ob['strict']:
             if st == 'identity':
